@@ -447,6 +447,30 @@ def directory_listings_sorted(ctx: Ctx):
             if isinstance(c, ast.Call) and (ast.unparse(c.func) in LIST or (isinstance(c.func, ast.Attribute) and c.func.attr in ("iterdir", "glob", "rglob"))):
                 n += 1
                 up = par.get(c)
+                # only a listing whose ORDER can reach a caller matters: the list (or a name bound to an expression containing
+                # it) is returned or stored on the object.  A listing that is merely counted / tested for membership is not.
+                fn_ = c
+                while fn_ is not None and not isinstance(fn_, (ast.FunctionDef, ast.Module)):
+                    fn_ = par.get(fn_)
+                carriers = set()
+                for st in ast.walk(fn_):
+                    if isinstance(st, ast.Assign) and any(x is c for x in ast.walk(st.value)):
+                        carriers |= {t.id for t in st.targets if isinstance(t, ast.Name)}
+                        if any(isinstance(t, ast.Attribute) for t in st.targets):
+                            carriers.add("<attribute>")
+                escapes = "<attribute>" in carriers
+                for st in ast.walk(fn_):
+                    if isinstance(st, (ast.Return, ast.Yield)) and st.value is not None:
+                        if any(x is c for x in ast.walk(st.value)) or any(isinstance(x, ast.Name) and x.id in carriers for x in ast.walk(st.value)):
+                            escapes = True
+                    if isinstance(st, ast.Assign) and any(isinstance(t, ast.Attribute) for t in st.targets) and any(isinstance(x, ast.Name) and x.id in carriers for x in ast.walk(st.value)):
+                        escapes = True
+                    if isinstance(st, ast.For) and (any(x is c for x in ast.walk(st.iter)) or any(isinstance(x, ast.Name) and x.id in carriers for x in ast.walk(st.iter))):
+                        escapes = True          # iterated in listing order
+                if not escapes:
+                    ctx.ob("C19.h", f"{mi.relpath}:{ast.unparse(c)[:40]}:order-not-observable", True, f"{mi.relpath}:{c.lineno}",
+                           "the listing is neither returned, stored nor iterated: its order cannot be observed")
+                    continue
                 # directly sorted, or the iterable of a comprehension that is itself sorted
                 ok = isinstance(up, ast.Call) and isinstance(up.func, ast.Name) and up.func.id == "sorted"
                 if not ok and isinstance(up, ast.comprehension):
